@@ -311,10 +311,14 @@ def configs(tier):
     out.append((carry_over, dict(kind='rr->ur', n_duct=3)))
     out.append((carry_over, dict(kind='ur->rr')))
     out.append((carry_over, dict(kind='ur->rr', n_duct=2, model='6node')))
+    # temperature-dependent properties (uninterpreted functions of temperature): a value cached from another
+    # temperature is a different atom
+    out.append((bypass, dict(n_ring=2, n_duct=2, tdep=True)))
+    out.append((unrodded, dict(model='6node', tdep=True)))
+    out.append((unrodded, dict(model='simple', tdep=True)))
     if tier == 'thorough':
         out.append((interior, dict(n_ring=6)))
         out.append((interior, dict(n_ring=3, n_duct=3, conv_approx=True, wwdir='counterclockwise')))
         out.append((bypass, dict(n_ring=4, n_duct=3)))
-        out.append((bypass, dict(n_ring=2, n_duct=2, tdep=True)))
-        out.append((unrodded, dict(model='6node', tdep=True)))
+        out.append((bypass, dict(n_ring=2, n_duct=3, tdep=True)))
     return out
